@@ -8,6 +8,7 @@ import Req.H2.FieldsX
 import Req.H2.WriteBlock
 import Req.H2.FrameRfc
 import Req.H3.Stream
+import Req.H2.Hpack
 import Req.Driver.WireUtil
 /-! Driver lanes of C05 (HTTP/2 framer, QUIC varints, HTTP/3 frames/SETTINGS/field sections). -/
 namespace Req.Driver.L.C05
@@ -306,6 +307,56 @@ def laneH3Append : List String → String
   | _ => "bad-op"
 end h3
 
+/-! ### HPACK primitives -/
+section hpack
+open Req.H2.Hpack
+
+def showHpErr : Err → String
+  | .needMore => "err:needmore"
+  | .overflow => "err:overflow"
+  | .huffman => "err:huffman"
+  | .indexedField => "err:indexed"
+  | .incrementalIndex => "err:incremental"
+  | .tableSizeUpdate => "err:tablesize"
+  | .indexedName => "err:indexedname"
+
+/-- `c05hpint enc <n> <hi> <i>` → bytes; `c05hpint dec <n> <bytes>` → `ok <value> <consumed>` |
+`need-more` | `overflow`. -/
+def laneHpInt : List String → String
+  | ["enc", n, hi, i] => match n.toNat?, hi.toNat?, i.toNat? with
+    | some n, some hi, some i => if n < 1 || n > 8 then "bad-op" else encodeHex (encodeInt n hi i)
+    | _, _, _ => "bad-op"
+  | ["dec", n, h] => match n.toNat?, decodeHex h with
+    | some n, some b =>
+      if n < 1 || n > 8 then "bad-op" else
+      match readInt n b with
+      | .ok (v, rest) => s!"ok {v} {b.length - rest.length}"
+      | .error .needMore => "need-more"
+      | .error .overflow => "overflow"
+    | _, _ => "bad-op"
+  | _ => "bad-op"
+
+def showHpFields (fs : List Field) : String :=
+  if fs.isEmpty then "-" else
+  ",".intercalate (fs.map fun f => b01 f.never ++ ":" ++ encodeHex f.name ++ ":" ++ encodeHex f.value)
+
+/-- `c05hplit enc <never flags: string of 0/1, or -> <names> <values>` → block;
+`c05hplit dec <block>` → `ok <fields>` | `err:<kind>`. -/
+def laneHpLit : List String → String
+  | ["enc", fl, ns, vs] => match decodeList ns, decodeList vs with
+    | some ns, some vs =>
+      let flags := if fl == "-" then [] else fl.toList.map (· == '1')
+      if ns.length != vs.length || ns.length != flags.length then "bad-op"
+      else encodeHex (encodeBlock ((flags.zip (ns.zip vs)).map fun x => ⟨x.1, x.2.1, x.2.2⟩))
+    | _, _ => "bad-op"
+  | ["dec", h] => match decodeHex h with
+    | some b => match decodeBlock b with
+      | .ok fs => "ok " ++ showHpFields fs
+      | .error e => showHpErr e
+    | none => "bad-op"
+  | _ => "bad-op"
+end hpack
+
 /-! ### HTTP/3 receive loop and the SETTINGS specification -/
 section h3stream
 open Req.H3.Frame Req.H3.Stream
@@ -529,6 +580,8 @@ def lanes : List (String × (List String → String)) := [
   ("c05wraw", laneWRaw),
   ("c05h2meta", laneH2Meta),
   ("c05h3next", laneH3Next),
+  ("c05hpint", laneHpInt),
+  ("c05hplit", laneHpLit),
   ("c05h3stream", laneH3Stream),
   ("c05h3settingsspec", laneH3SettingsSpec),
   ("c05h3settings", laneH3Settings),
